@@ -59,7 +59,7 @@ main(int argc, char **argv)
 	sp.watchdog_s = 60;
 	sp.rule = "API programs = one of 15 protocol scenarios (req/rep, req and rep contexts, survey with two respondents, surveyor / req context abandoned "
 	          "before the answer, pub with two subs, pipeline, pair1, bus of three, req/rep through a raw device, 11 sockets, sub context, aio forms) over "
-	          "inproc / ipc / tcp, with generated operations inserted anywhere: any of 18 options with boundary values on socket / context / dialer / listener "
+	          "inproc / ipc / tcp / ws, with generated operations inserted anywhere: any of 18 options with boundary values on socket / context / dialer / listener "
 	          "(also through the wrong accessor), socket / context / endpoint / pipe close (also twice), cancel / abort, extra sends and receives (blocking, "
 	          "non-blocking, aio; 0..70000 bytes), contexts, subscriptions, statistics snapshots; fifo / random / PCT schedules. Oracle: ASan/UBSan clean; "
 	          "a failed send leaves the message a live block owned by the caller, a successful receive yields a live block; callbacks == submissions; "
